@@ -231,7 +231,7 @@ def run(rep, wd, tier, seed):
         for b in ENCS:
             for fi in fmts:
                 for fo in fmts:
-                    reps = 2 if tier == 'thorough' else 1
+                    reps = 6 if tier == 'thorough' else 1
                     for _ in range(reps):
                         cases.append((cid, 'mci_ipm_encode' if cid % 3 else 'mci_ipm_encode.cli', a, b, fi, fo))
                         pcases.append((cid, 'mci_ipm_param_encode' if cid % 3 else 'mci_ipm_param_encode.cli', a, b, fi, fo))
